@@ -1,6 +1,6 @@
 (* C08, the row loops: for 8- and 16-bit grey / RGB (/ alpha) images the transform kernels of the model (transform.rs) compute exactly the
    documented conversion (Spec/TransformSpec.v spec_convert) for EVERY width and EVERY row content. *)
-From PngV Require Import Base.Bytes Spec.TransformSpec Model.Transform.
+From PngV Require Import Base.Bytes Spec.TransformSpec Model.Transform Proofs.TransformProofs.
 From Coq Require Import ZifyBool.
 Local Arguments Z.mul : simpl never.
 Local Arguments Z.add : simpl never.
@@ -297,4 +297,250 @@ Proof.
     replace (((color =? 0) || (color =? 4)) && false) with false by (rewrite andb_false_r; reflexivity). cbn [andb].
     rewrite ser16_pixel by (try exact Hb; fold ns; nia). fold ns.
     unfold opt_eqb. destruct trns as [key|]; reflexivity.
+Qed.
+
+(* ================= sub-byte grey expansion (TGray / TGrayTrns) and palette expansion through unpack_bits (TPalRgba / TPalRgb) ================= *)
+Local Arguments Z.shiftr : simpl never.
+Local Arguments Z.shiftl : simpl never.
+Local Arguments Z.land : simpl never.
+Local Arguments Z.div : simpl never.
+Local Arguments Z.modulo : simpl never.
+
+(* the value the model's bit unpacker hands to the kernel = the specification's sample, for depth 1, 2, 4 *)
+Lemma unpack_pixel_sample row d k : (d = 1 \/ d = 2 \/ d = 4) -> 0 <= k ->
+  (Z.to_nat (k * d / 8) < length row)%nat ->
+  unpack_pixel row d k = Some (sample row d k).
+Proof.
+  intros Hd Hk Hin. unfold unpack_pixel, sample.
+  assert (E16 : (d =? 16) = false) by lia. assert (E8 : (d =? 8) = false) by lia. rewrite E16, E8.
+  unfold nthz. destruct (Z.ltb_spec (k * d / 8) 0) as [Hneg|_]; [exfalso; assert (0 <= k * d / 8) by (apply Z.div_pos; nia); lia|].
+  destruct (nth_error row (Z.to_nat (k * d / 8))) as [b|] eqn:E.
+  - rewrite (nth_error_nth _ _ 0 E). do 2 f_equal. destruct Hd as [-> | [-> | ->]]; reflexivity.
+  - apply nth_error_None in E. lia.
+Qed.
+
+Lemma unpack_go_spec row d f : (d = 1 \/ d = 2 \/ d = 4) -> forall n k, 0 <= k ->
+  (n = 0%nat \/ (Z.to_nat ((k + Z.of_nat n - 1) * d / 8) < length row)%nat) ->
+  unpack_go row d k n f = Ok (flat_map (fun j => f (sample row d (k + Z.of_nat j))) (seq 0 n)).
+Proof.
+  intros Hd. induction n as [|n IH]; intros k Hk Hin; cbn [unpack_go seq flat_map]; [reflexivity|].
+  destruct Hin as [Hin|Hin]; [discriminate|].
+  assert (Hlt : (Z.to_nat (k * d / 8) < length row)%nat).
+  { assert (k * d / 8 <= (k + Z.of_nat (S n) - 1) * d / 8) by (apply Z.div_le_mono; nia).
+    assert (0 <= k * d / 8) by (apply Z.div_pos; nia). lia. }
+  rewrite (unpack_pixel_sample row d k Hd Hk Hlt).
+  assert (Hin' : n = 0%nat \/ (Z.to_nat ((k + 1 + Z.of_nat n - 1) * d / 8) < length row)%nat).
+  { destruct n; [left; reflexivity | right]. replace (k + 1 + Z.of_nat (S n) - 1) with (k + Z.of_nat (S (S n)) - 1) by lia. exact Hin. }
+  rewrite (IH (k + 1) ltac:(lia) Hin').
+  cbn [obind]. f_equal. replace (k + Z.of_nat 0) with k by lia. f_equal.
+  rewrite <- seq_shift. rewrite !flat_map_concat_map, map_map. f_equal. apply map_ext. intro j. f_equal. f_equal. lia.
+Qed.
+
+(* samples of depth 1, 2, 4 are in range, and replication to 8 bits is multiplication by 255 / (2^d - 1) *)
+Lemma sample_range row d k : (d = 1 \/ d = 2 \/ d = 4) -> 0 <= sample row d k < 2 ^ d.
+Proof.
+  intros Hd. unfold sample.
+  assert (E16 : (d =? 16) = false) by lia. assert (E8 : (d =? 8) = false) by lia. rewrite E16, E8.
+  replace (2 ^ d - 1) with (Z.ones d) by (rewrite Z.ones_equiv; lia).
+  rewrite Z.land_ones by lia. apply Z.mod_pos_bound. destruct Hd as [-> | [-> | ->]]; reflexivity.
+Qed.
+
+Definition replicate_table_ok : bool :=
+  forallb (fun d => forallb (fun v => replicate d v =? (v * scaling_factor d) mod 256) (zrange 0 (Z.to_nat (2 ^ d)))) [1; 2; 4].
+Lemma replicate_table_ok_true : replicate_table_ok = true. Proof. vm_compute. reflexivity. Qed.
+
+Lemma in_zrange v n : 0 <= v < Z.of_nat n -> In v (zrange 0 n).
+Proof.
+  intro H. change 0 with (Z.of_nat 0). rewrite zrange_seq. apply in_map_iff. exists (Z.to_nat v). split; [lia|]. apply in_seq. lia.
+Qed.
+
+Lemma replicate_scaling d v : (d = 1 \/ d = 2 \/ d = 4) -> 0 <= v < 2 ^ d -> replicate d v = (v * scaling_factor d) mod 256.
+Proof.
+  intros Hd Hv. pose proof replicate_table_ok_true as H. unfold replicate_table_ok in H. rewrite forallb_forall in H.
+  assert (Hin : In d [1; 2; 4]) by (cbn; destruct Hd as [-> | [-> | ->]]; auto).
+  specialize (H d Hin). rewrite forallb_forall in H. specialize (H v). apply Z.eqb_eq. apply H. apply in_zrange.
+  destruct Hd as [-> | [-> | ->]]; cbn in *; lia.
+Qed.
+
+Lemma pixel_gray row d k : pixel row 0 d k = [sample row d k].
+Proof. unfold pixel. change (nsamples 0) with 1. change (Z.to_nat 1) with 1%nat. cbn [zrange map]. f_equal. f_equal. lia. Qed.
+
+(* ---- grey images of depth 1, 2, 4 under EXPAND / ALPHA: TGray and TGrayTrns *)
+Theorem gray_expand_correct d pal trns t w row old :
+  (d = 1 \/ d = 2 \/ d = 4) -> s_expand t = true -> trns <> Some [] ->
+  (w = 0%nat \/ (Z.to_nat ((Z.of_nat w - 1) * d / 8) < length row)%nat) ->
+  length old = (w * (if present trns || s_alpha t then 2 else 1))%nat ->
+  transform_row (mk_tinfo 0 d pal trns) t row old = TROk (spec_convert 0 d pal trns t (Z.of_nat w) row).
+Proof.
+  intros Hd He Htr Hrow Hold.
+  destruct (flags_agree t) as (F1 & F2 & F3).
+  assert (Hs2 : is_some trns || has_alpha t = (present trns || s_alpha t)) by (rewrite is_some_present, F2; reflexivity).
+  assert (Dlt : (d <? 8) = true) by lia. assert (D8 : (d =? 8) = false) by lia. assert (D16 : (d =? 16) = false) by lia.
+  unfold transform_row, create_transform_fn. cbv zeta. cbn [t_color t_depth t_trns t_palette].
+  rewrite F1, He, Hs2, Dlt. cbn [Z.eqb andb orb].
+  unfold spec_convert. rewrite He, Dlt. cbn [Z.eqb andb orb]. rewrite Nat2Z.id, flat_map_seq_zrange.
+  set (aa := present trns || s_alpha t) in *.
+  assert (Hdep : negb ((d =? 1) || (d =? 2) || (d =? 4) || (d =? 8)) = false) by (destruct Hd as [-> | [-> | ->]]; reflexivity).
+  assert (H8d : 1 <= 8 / d) by (destruct Hd as [-> | [-> | ->]]; cbv; discriminate).
+  assert (Hfit : Z.of_nat w <= 8 / d * zlen row).
+  { unfold zlen. assert (Hw : w = 0%nat \/ (1 <= Z.of_nat w /\ (Z.to_nat ((Z.of_nat w - 1) * d / 8) < length row)%nat)).
+    { destruct Hrow as [Hw0 | Hrow]; [left; exact Hw0|]. destruct w as [|w']; [left; reflexivity | right; split; [lia | exact Hrow]]. }
+    destruct Hw as [Hw0 | [Hw1 Hr]].
+    - subst w. destruct Hd as [-> | [-> | ->]]; [change (8 / 1) with 8 | change (8 / 2) with 4 | change (8 / 4) with 2]; clear; lia.
+    - assert (H0 : 0 <= (Z.of_nat w - 1) * d / 8) by (apply Z.div_pos; nia).
+      destruct Hd as [-> | [-> | ->]]; [change (8 / 1) with 8 | change (8 / 2) with 4 | change (8 / 4) with 2];
+        revert Hr H0; generalize (length row); intros L Hr H0; clear - Hr H0 Hw1; Z.div_mod_to_equations; lia. }
+  assert (Hgo : forall f, unpack_go row d 0 w f = Ok (flat_map (fun j => f (sample row d (Z.of_nat j))) (seq 0 w))).
+  { intro f.
+    assert (Hx : w = 0%nat \/ (Z.to_nat ((0 + Z.of_nat w - 1) * d / 8) < length row)%nat).
+    { destruct Hrow as [Hw0 | Hr]; [left; exact Hw0 | right]. replace (0 + Z.of_nat w - 1) with (Z.of_nat w - 1) by lia. exact Hr. }
+    rewrite (unpack_go_spec row d f Hd w 0 ltac:(lia) Hx). reflexivity. }
+  assert (Hconv : forall k, convert_pixel 0 d pal trns t (pixel row 0 d (Z.of_nat k)) =
+            (sample row d (Z.of_nat k) * scaling_factor d) mod 256
+            :: (if aa then [match trns with Some (key :: _) => if sample row d (Z.of_nat k) =? key then 0 else 255 | _ => 255 end] else [])).
+  { intro k. unfold convert_pixel. rewrite He, Dlt, pixel_gray. cbn [Z.eqb andb orb hd]. fold aa.
+    rewrite (replicate_scaling d _ Hd (sample_range row d (Z.of_nat k) Hd)). reflexivity. }
+  destruct aa eqn:Eaa; unfold apply_tfn; cbn [t_depth t_trns].
+  - (* TGrayTrns *)
+    destruct trns as [[|key tr]|] eqn:Etr; [congruence | |];
+      unfold unpack_bits; rewrite Hdep, D8;
+      (destruct (Z.ltb_spec (8 / d * 2 * zlen row) (zlen old)) as [Hbad|_]; [unfold zlen in *; nia|]);
+      replace (Z.to_nat (zlen old / 2)) with w by (unfold zlen; rewrite Hold; replace (Z.of_nat (w * 2)) with (Z.of_nat w * 2) by lia; rewrite Z.div_mul by lia; lia);
+      rewrite Hgo; cbn [obind];
+      replace (w * Z.to_nat 2)%nat with (length old) by lia; rewrite skipn_all, app_nil_r;
+      f_equal; apply flat_map_ext; intro k; rewrite Hconv; reflexivity.
+  - (* TGray *)
+    unfold unpack_bits. rewrite Hdep, D8.
+    destruct (Z.ltb_spec (8 / d * 1 * zlen row) (zlen old)) as [Hbad|_]; [unfold zlen in *; nia|].
+    replace (Z.to_nat (zlen old / 1)) with w by (unfold zlen; rewrite Hold, Z.div_1_r; lia).
+    rewrite Hgo. cbn [obind].
+    replace (w * Z.to_nat 1)%nat with (length old) by lia. rewrite skipn_all, app_nil_r.
+    f_equal. apply flat_map_ext. intro k. rewrite Hconv. reflexivity.
+Qed.
+
+(* ---- indexed images of depth 1, 2, 4 under EXPAND / ALPHA: TPalRgba and TPalRgb (both through the bit unpacker) *)
+Lemma pixel_idx row d k : pixel row 3 d k = [sample row d k].
+Proof. unfold pixel. change (nsamples 3) with 1. change (Z.to_nat 1) with 1%nat. cbn [zrange map]. f_equal. f_equal. lia. Qed.
+
+Lemma pal_rgb_length pal idx : length (pal_rgb pal idx) = 3%nat.
+Proof. unfold pal_rgb. destruct (idx <? pal_entries pal); reflexivity. Qed.
+
+Theorem palette_subbyte_correct d pal trns t w row old :
+  (d = 1 \/ d = 2 \/ d = 4) -> s_expand t = true ->
+  (w = 0%nat \/ (Z.to_nat ((Z.of_nat w - 1) * d / 8) < length row)%nat) ->
+  length old = (w * (if present trns || s_alpha t then 4 else 3))%nat ->
+  transform_row (mk_tinfo 3 d (Some pal) trns) t row old = TROk (spec_convert 3 d (Some pal) trns t (Z.of_nat w) row).
+Proof.
+  intros Hd He Hrow Hold.
+  destruct (flags_agree t) as (F1 & F2 & F3).
+  assert (Hs2 : is_some trns || has_alpha t = (present trns || s_alpha t)) by (rewrite is_some_present, F2; reflexivity).
+  assert (D8 : (d =? 8) = false) by lia. assert (D16 : (d =? 16) = false) by lia.
+  unfold transform_row, create_transform_fn. cbv zeta. cbn [t_color t_depth t_trns t_palette is_some negb Z.eqb Pos.eqb andb].
+  rewrite F1, He, D16, D8. cbn [andb].
+  destruct (create_rgba_palette_spec 3 d pal trns) as (tab & Htab & Hget). rewrite Htab, Hs2.
+  unfold spec_convert. rewrite He. cbn [Z.eqb Pos.eqb andb orb]. rewrite Nat2Z.id, flat_map_seq_zrange.
+  set (aa := present trns || s_alpha t) in *.
+  assert (Hdep : negb ((d =? 1) || (d =? 2) || (d =? 4) || (d =? 8)) = false) by (destruct Hd as [-> | [-> | ->]]; reflexivity).
+  assert (Hw : w = 0%nat \/ (1 <= Z.of_nat w /\ (Z.to_nat ((Z.of_nat w - 1) * d / 8) < length row)%nat)).
+  { destruct Hrow as [Hw0 | Hr]; [left; exact Hw0|]. destruct w as [|w']; [left; reflexivity | right; split; [lia | exact Hr]]. }
+  assert (Hfit : Z.of_nat w <= 8 / d * zlen row).
+  { unfold zlen. destruct Hw as [Hw0 | [Hw1 Hr]].
+    - subst w. destruct Hd as [-> | [-> | ->]]; [change (8 / 1) with 8 | change (8 / 2) with 4 | change (8 / 4) with 2]; clear; lia.
+    - assert (H0 : 0 <= (Z.of_nat w - 1) * d / 8) by (apply Z.div_pos; nia).
+      destruct Hd as [-> | [-> | ->]]; [change (8 / 1) with 8 | change (8 / 2) with 4 | change (8 / 4) with 2];
+        revert Hr H0; generalize (length row); intros L Hr H0; clear - Hr H0 Hw1; Z.div_mod_to_equations; lia. }
+  assert (Hgo : forall f, unpack_go row d 0 w f = Ok (flat_map (fun j => f (sample row d (Z.of_nat j))) (seq 0 w))).
+  { intro f.
+    assert (Hx : w = 0%nat \/ (Z.to_nat ((0 + Z.of_nat w - 1) * d / 8) < length row)%nat).
+    { destruct Hrow as [Hw0 | Hr]; [left; exact Hw0 | right]. replace (0 + Z.of_nat w - 1) with (Z.of_nat w - 1) by lia. exact Hr. }
+    rewrite (unpack_go_spec row d f Hd w 0 ltac:(lia) Hx). reflexivity. }
+  assert (Hidx : forall k, 0 <= sample row d (Z.of_nat k) < 256).
+  { intro k. pose proof (sample_range row d (Z.of_nat k) Hd) as Hr. destruct Hd as [-> | [-> | ->]]; [change (2 ^ 1) with 2 in Hr | change (2 ^ 2) with 4 in Hr | change (2 ^ 4) with 16 in Hr]; clear - Hr; lia. }
+  assert (Hconv : forall k, convert_pixel 3 d (Some pal) trns t (pixel row 3 d (Z.of_nat k)) =
+            pal_rgb pal (sample row d (Z.of_nat k)) ++ (if aa then [pal_alpha pal (opt_list trns) (sample row d (Z.of_nat k))] else [])).
+  { intro k. unfold convert_pixel. rewrite He, pixel_idx. cbn [Z.eqb Pos.eqb andb hd opt_list]. fold aa. reflexivity. }
+  destruct aa eqn:Eaa; unfold apply_tfn; cbn [t_depth]; unfold unpack_bits; rewrite Hdep, D8.
+  - destruct (Z.ltb_spec (8 / d * 4 * zlen row) (zlen old)) as [Hbad|_]; [unfold zlen in *; nia|].
+    replace (Z.to_nat (zlen old / 4)) with w by (unfold zlen; rewrite Hold; replace (Z.of_nat (w * 4)) with (Z.of_nat w * 4) by lia; rewrite Z.div_mul by lia; lia).
+    rewrite Hgo. cbn [obind]. replace (w * Z.to_nat 4)%nat with (length old) by lia. rewrite skipn_all, app_nil_r.
+    f_equal. apply flat_map_ext. intro k. rewrite Hconv, (Hget _ (Hidx k)). reflexivity.
+  - destruct (Z.ltb_spec (8 / d * 3 * zlen row) (zlen old)) as [Hbad|_]; [unfold zlen in *; nia|].
+    replace (Z.to_nat (zlen old / 3)) with w by (unfold zlen; rewrite Hold; replace (Z.of_nat (w * 3)) with (Z.of_nat w * 3) by lia; rewrite Z.div_mul by lia; lia).
+    rewrite Hgo. cbn [obind]. replace (w * Z.to_nat 3)%nat with (length old) by lia. rewrite skipn_all, app_nil_r.
+    f_equal. apply flat_map_ext. intro k. rewrite Hconv, (Hget _ (Hidx k)), app_nil_r.
+    pose proof (pal_rgb_length pal (sample row d (Z.of_nat k))) as Lp.
+    rewrite <- Lp at 1. rewrite firstn_app, Nat.sub_diag, firstn_all. cbn [firstn]. apply app_nil_r.
+Qed.
+
+(* ---- indexed images of depth 8 under EXPAND / ALPHA: TPalRgba (through the byte path of the unpacker) and TPalRgb8 (4-byte writes) *)
+Lemma firstn_app_le {A} (n : nat) (a b : list A) : (n <= length a)%nat -> firstn n (a ++ b) = firstn n a.
+Proof. intro H. rewrite firstn_app. replace (n - length a)%nat with 0%nat by lia. cbn [firstn]. apply app_nil_r. Qed.
+Lemma skipn_app_le {A} (n : nat) (a b : list A) : (n <= length a)%nat -> skipn n (a ++ b) = skipn n a ++ b.
+Proof. intro H. rewrite skipn_app. replace (n - length a)%nat with 0%nat by lia. reflexivity. Qed.
+
+Lemma list_as_nth (l : list Z) : l = map (fun k => nth k l 0) (seq 0 (length l)).
+Proof. rewrite nth_seq_firstn by lia. symmetry. apply firstn_all. Qed.
+
+Lemma sample8 row k : sample row 8 (Z.of_nat k) = nth k row 0.
+Proof. unfold sample. cbn [Z.eqb Pos.eqb]. unfold nthz. destruct (Z.ltb_spec (Z.of_nat k) 0); [lia|]. rewrite Nat2Z.id. reflexivity. Qed.
+
+Lemma expand_rgb8_spec tab : forall row fuel out,
+  (forall i, In i row -> length (tab_get tab i) = 4%nat) ->
+  length out = (3 * length row)%nat -> (length row <= fuel)%nat ->
+  expand_8bit_into_rgb8 fuel row out tab = Ok (flat_map (fun i => firstn 3 (tab_get tab i)) row).
+Proof.
+  induction row as [|i row IH]; intros fuel out Htab Hl Hf.
+  - destruct out; [|cbn in Hl; lia]. destruct fuel; reflexivity.
+  - destruct fuel as [|fuel]; [cbn in Hf; lia|]. cbn [expand_8bit_into_rgb8 flat_map].
+    assert (L4 : length (tab_get tab i) = 4%nat) by (apply Htab; left; reflexivity).
+    cbn [length] in Hl.
+    destruct (Nat.leb_spec 4 (length out)) as [H4|H4].
+    + destruct row as [|i2 row2]; [cbn in Hl; lia|].
+      assert (Hs : skipn 3 (tab_get tab i ++ skipn 4 out) = skipn 3 (tab_get tab i) ++ skipn 4 out) by (apply skipn_app_le; lia).
+      assert (Hfst : firstn 3 (tab_get tab i ++ skipn 4 out) = firstn 3 (tab_get tab i)) by (apply firstn_app_le; lia).
+      rewrite Hs, Hfst.
+      rewrite (IH fuel (skipn 3 (tab_get tab i) ++ skipn 4 out)).
+      * reflexivity.
+      * intros j Hj. apply Htab. right. exact Hj.
+      * rewrite app_length, !skipn_length, L4. cbn [length] in *. lia.
+      * cbn [length] in *. lia.
+    + destruct row as [|i2 row2]; [|cbn [length] in Hl; lia]. cbn [length] in Hl.
+      destruct (Nat.ltb_spec 0 (length out)) as [_|H0]; [|lia]. destruct (Nat.ltb_spec (length out) 3) as [Hlt|_]; [lia|].
+      cbn [flat_map]. rewrite app_nil_r. replace 3%nat with (length out) at 2 by lia. rewrite skipn_all, app_nil_r. reflexivity.
+Qed.
+
+Theorem palette8_correct pal trns t row old :
+  bytes_ok row -> s_expand t = true ->
+  length old = (length row * (if present trns || s_alpha t then 4 else 3))%nat ->
+  transform_row (mk_tinfo 3 8 (Some pal) trns) t row old = TROk (spec_convert 3 8 (Some pal) trns t (zlen row) row).
+Proof.
+  intros Hb He Hold.
+  destruct (flags_agree t) as (F1 & F2 & F3).
+  assert (Hs2 : is_some trns || has_alpha t = (present trns || s_alpha t)) by (rewrite is_some_present, F2; reflexivity).
+  unfold transform_row, create_transform_fn. cbv zeta. cbn [t_color t_depth t_trns t_palette is_some negb Z.eqb Pos.eqb andb].
+  rewrite F1, He. cbn [andb].
+  destruct (create_rgba_palette_spec 3 8 pal trns) as (tab & Htab & Hget). rewrite Htab, Hs2.
+  unfold spec_convert. rewrite He. cbn [Z.eqb Pos.eqb andb orb]. unfold zlen at 1. rewrite Nat2Z.id, flat_map_seq_zrange.
+  set (aa := present trns || s_alpha t) in *.
+  assert (Hidx : forall k, (k < length row)%nat -> 0 <= nth k row 0 < 256) by (intros k Hk; apply byte_at; assumption).
+  assert (Hconv : forall k, convert_pixel 3 8 (Some pal) trns t (pixel row 3 8 (Z.of_nat k)) =
+            pal_rgb pal (nth k row 0) ++ (if aa then [pal_alpha pal (opt_list trns) (nth k row 0)] else [])).
+  { intro k. unfold convert_pixel. rewrite He, pixel_idx, sample8. cbn [Z.eqb Pos.eqb andb hd opt_list]. fold aa. reflexivity. }
+  assert (Hrhs : forall g : Z -> list Z, (forall k, (k < length row)%nat -> g (nth k row 0) = convert_pixel 3 8 (Some pal) trns t (pixel row 3 8 (Z.of_nat k))) ->
+            flat_map g row = flat_map (fun k => convert_pixel 3 8 (Some pal) trns t (pixel row 3 8 (Z.of_nat k))) (seq 0 (length row))).
+  { intros g Hg. rewrite (list_as_nth row) at 1. rewrite flat_map_concat_map, map_map, <- flat_map_concat_map.
+    rewrite !flat_map_concat_map. f_equal. apply map_ext_in. intros k Hk. apply in_seq in Hk. apply Hg. lia. }
+  destruct aa eqn:Eaa; unfold apply_tfn; cbn [t_depth].
+  - unfold unpack_bits. cbn [Z.eqb Pos.eqb orb negb].
+    destruct (Z.ltb_spec (8 / 8 * 4 * zlen row) (zlen old)) as [Hbad|_]; [unfold zlen in *; change (8 / 8) with 1 in Hbad; lia|].
+    replace (Z.to_nat (zlen old / 4)) with (length row) by (unfold zlen; rewrite Hold; replace (Z.of_nat (length row * 4)) with (Z.of_nat (length row) * 4) by lia; rewrite Z.div_mul by lia; lia).
+    rewrite Nat.min_id, firstn_all. replace (length row * Z.to_nat 4)%nat with (length old) by lia. rewrite skipn_all, app_nil_r.
+    f_equal. apply Hrhs. intros k Hk. rewrite Hconv, (Hget _ (Hidx k Hk)). reflexivity.
+  - rewrite (expand_rgb8_spec tab row (length old) old).
+    + f_equal. apply Hrhs. intros k Hk. rewrite Hconv, (Hget _ (Hidx k Hk)), app_nil_r.
+      pose proof (pal_rgb_length pal (nth k row 0)) as Lp.
+      rewrite <- Lp at 1. rewrite firstn_app, Nat.sub_diag, firstn_all. cbn [firstn]. apply app_nil_r.
+    + intros i Hi. destruct (In_nth _ _ 0 Hi) as (k & Hk & <-). rewrite (Hget _ (Hidx k Hk)), app_length, pal_rgb_length. reflexivity.
+    + lia.
+    + lia.
 Qed.
